@@ -14,6 +14,21 @@ def hexs(s): return s.encode().hex() or "-"
 WORDS = ["get", "url", "set", "x", "list", "all", "2fa", "v2", "item", "io", "a", "b9"]
 PNAMES = ["name", "id", "opt", "items", "cfg", "value", "the_key", "n", "flag", "x1"]
 RENAMES = ["theName", "ID", "user_name", "Val", "k"]
+# wire names drawn from the Varlink field-name grammar [A-Za-z](_?[A-Za-z0-9])* piece by piece (lower word, Capitalised
+# word, ACRONYM, digits; glued directly or by one underscore): hashSha_256, maxAge_2, x_Y9 ...; plus a few names
+# outside that grammar, which a rename must carry verbatim all the same (it is a JSON member name)
+_LOW = ["a", "id", "max", "hash", "user", "x", "ip", "url", "age", "sha", "is", "fa", "v", "name"]
+_DIG = ["2", "9", "256", "3", "64", "0"]
+ODD_RENAMES = ["with-dash", "dotted.name", "tr\u00e4ger", "_lead", "9lives", "a__b", "trail_"]
+def gram_rename(rng):
+    def piece(first):
+        k = rng.randint(0, 3 if not first else 2)
+        w = rng.choice(_LOW)
+        return w if k == 0 else (w[0].upper() + w[1:]) if k == 1 else w.upper() if k == 2 else rng.choice(_DIG)
+    out = piece(True)
+    for _ in range(rng.randint(0, 3)):
+        out += ("_" if rng.random() < 0.4 else "") + piece(False)
+    return out
 
 def sexpr(v):
     if v is None: return "n"
@@ -86,7 +101,11 @@ def gen_trait(rng, ti):
             if ty == "GEN":
                 if ngen >= 1 or not will_gen: continue
                 ngen += 1; gen = "G0"; ty = "G0"
-            prn = rng.choice([None, None, RENAMES[len(params) % len(RENAMES)]])
+            prn = rng.choice([None, None, RENAMES[len(params) % len(RENAMES)], gram_rename(rng), gram_rename(rng),
+                              ODD_RENAMES[rng.randrange(len(ODD_RENAMES))] if rng.random() < 0.3 else None])
+            wires = {q["rename"] or q["name"] for q in params}
+            if prn is not None and (prn in wires or prn in PNAMES):
+                prn = None
             params.append(dict(name=name, ty=ty, lit=lit, val=val, optional=optional, rename=prn, gen=gen))
         methods.append(dict(rust=rust, rename=rename, flag=flag, explicit_lt=explicit_lt, params=params, unit_out=rng.random() < 0.3))
     return dict(idx=ti, iface=f"org.ex.T{ti}", methods=methods)
